@@ -4,7 +4,9 @@
  "entry": "h_ptrheap_increase",
  "enforce": ["ptrheap_increase"],
  "replace": [],
- "annotate": ["datastruct/ptrheap.c"],
+ "annotate": ["datastruct/ptrheap.c", "datastruct/elasticarray.c"],
+ "specs": {"datastruct/elasticarray.c": "contracts/c13_elasticarray_bounds.spec"},
+ "models": ["models/heap_realloc.c", "models/heap_memcpy.c"],
  "defines": ["VERIF_HALLOC", "HP_TARGET_PTRHEAP", "HP_MAXN=7"],
  "thorough_defines": ["HP_MAXN=15"],
  "matrix": {"HP_MODEL": [1, 2]},
@@ -14,7 +16,8 @@
  "timeout": 600,
  "assumptions": ["HP_MODEL=1: abstract user callbacks of harness/C13/hp_model.h; HP_MODEL=2: real struct timerrec, compar, setreccookie of timerqueue.c",
                  "slot k of the initial heap holds record object R[k]: symmetry reduction, sound for distinct elements because ptrheap.c never inspects element pointers (arbitrary layouts incl. duplicate pointers: groups *_any at 4 elements)",
-                 "elasticarray.c is inlined (real code); pointer-list allocation is an exact-size object of n..HP_MAXN+1 slots"]
+                 "elasticarray.c is inlined (real code) with ghost bounds assertions (contracts/c13_elasticarray_bounds.spec); the pointer-list buffer is a heap object of constant capacity >= alloc, accesses are checked against the logical size, not the capacity",
+                 "models/heap_realloc.c (C11 realloc, capacity-based), models/heap_memcpy.c (typed copy of one pointer / one timeval)"]
 }
 */
 #include "hp_model.h"
